@@ -52,11 +52,13 @@ class C20(Prop):
                   "necessary): c20-files-hash-word (copyright Files item starting with '#'), c20-vcs-second-group (Vcs-Git with a second [..] group; "
                   "the theorem also leaves multi-line Vcs-Git values out), c20-env-hash-line (Environment entry starting with '#' not sorted "
                   "first), c20-signature-hash-block (Signed-By key block whose first line starts with '#'), c20-dep3-empty-header (no known "
-                  "field), c20-lossy-blank-last-line (apt kinds: a value ending in LF; the Coq class Known_lossy_noncanonical is wider - it also "
-                  "leaves out values with a blank or comment continuation line in the middle, which the stream finds stable), "
-                  "c20-lossy-empty-first-line (apt kinds, field-wise clause only), c20-debversion-i32-digit-run (== on apt Source/Package panics "
-                  "inside debversion; outside the model). Scope: lossless-reader kinds - every text the reader accepts; apt kinds - every text "
-                  "whose lossy paragraph is canonical (includes every well-formed document). Also proved: every value the strict lossless reader "
+                  "field), c20-lossy-blank-last-line (apt kinds: a field value ending in LF, i.e. whose last continuation line is blank or a "
+                  "comment; the Coq class Known_lossy_blank_last is exactly that - values with blank or comment continuation lines in the interior "
+                  "are proved stable), c20-lossy-empty-first-line (apt kinds, field-wise clause only: the lossy value is LF + the lossless one), "
+                  "c20-debversion-i32-digit-run (== on apt Source/Package panics inside debversion; outside the model). Two classes of the first "
+                  "delivery are fixed in /repo and gone: c20-env-trailing-newline, c20-hash-order. Scope: lossless-reader kinds - every text the "
+                  "reader accepts; apt kinds - every text the lossy reader accepts in which no field value ends in LF (includes every well-formed "
+                  "document). Also proved: every value the strict lossless reader "
                   "hands out is canonical (all strings); acceptance = exactly one source paragraph / Format gate, roles by Package, Source, Files, "
                   "License, every struct field the deserialiser's image of what get shows (equivalence for control and copyright); rejection of "
                   "the structurally invalid variants; totality. Struct tables are regenerated from the sources; side conditions closed by vm_compute.")
